@@ -181,6 +181,52 @@ def _generator_shape(fn):
     return check(fn.body, False)
 
 
+def _body_to_expr(stmts):
+    """the value a side-effect free helper returns, as ONE expression:
+         return e                                  -> e
+         if c: return a ; <rest>                   -> a if c else <rest>
+         if c: return a  else: return b            -> a if c else b
+         x = <expr> ; <rest>   (x bound once)      -> <rest> with x replaced (x read once, or value pure)
+    None if the body has any other shape."""
+    if not stmts:
+        return None
+    st = stmts[0]
+    if isinstance(st, ast.Return):
+        return st.value if st.value is not None and len(stmts) == 1 else None
+    if isinstance(st, ast.If):
+        a = _body_to_expr(st.body)
+        if a is None:
+            return None
+        b = _body_to_expr(st.orelse) if st.orelse else _body_to_expr(stmts[1:])
+        if b is None or (st.orelse and len(stmts) > 1):
+            return None
+        return ast.copy_location(ast.IfExp(test=st.test, body=a, orelse=b), st)
+    if isinstance(st, ast.Assign) and len(st.targets) == 1 and isinstance(st.targets[0], ast.Name):
+        x = st.targets[0].id
+        rest = _body_to_expr(stmts[1:])
+        if rest is None:
+            return None
+        rest = copy.deepcopy(rest)
+        reads = [n for n in ast.walk(rest) if isinstance(n, ast.Name) and n.id == x]
+        if any(isinstance(n.ctx, ast.Store) for n in reads):
+            return None
+        if len(reads) > 1 and not _pure(st.value) and not _no_call(st.value):
+            return None
+
+        class T(ast.NodeTransformer):
+            def visit_Name(self, n):
+                if n.id == x and isinstance(n.ctx, ast.Load):
+                    return ast.copy_location(copy.deepcopy(st.value), n)
+                return n
+        return T().visit(rest)
+    return None
+
+
+def _no_call(e):
+    return not any(isinstance(n, (ast.Call, ast.Await, ast.Yield, ast.YieldFrom, ast.NamedExpr))
+                   for n in ast.walk(e))
+
+
 class _Rename(ast.NodeTransformer):
     def __init__(self, ren, subst):
         self.ren = ren
@@ -395,7 +441,7 @@ class Inliner:
         for n in _stmts_walk(fn.body):
             if isinstance(n, ast.FunctionDef):
                 self._host_fn(n, None, stack)
-        if len(self.inlined) > before:
+        if len(self.inlined) > before or _has_literal_loop(fn):
             _simplify_function(fn, self.records)
             _coalesce(fn, self.renames)
         self.renames = outer_renames
@@ -599,12 +645,15 @@ class Inliner:
                 if h is None or any(h is s_ for s_ in stack):
                     return n
                 body = [s_ for s_ in h.body if not _is_doc(s_)]
-                if len(body) != 1 or not isinstance(body[0], ast.Return) or body[0].value is None:
+                if len(body) > 1 and id(n) in direct:
+                    return n        # the whole value of a statement: the statement inliner keeps the if/else shape
+                whole = _body_to_expr(body)
+                if whole is None:
                     return n
                 env = inl._bind(h, n, recv)
                 if env is None:
                     return n
-                expr = copy.deepcopy(body[0].value)
+                expr = copy.deepcopy(whole)
                 uses = {}
                 for x in ast.walk(expr):
                     if isinstance(x, ast.Name) and isinstance(x.ctx, ast.Load):
@@ -622,6 +671,9 @@ class Inliner:
                 return ast.copy_location(new, n)
         for _ in range(6):
             T.changed = False
+            direct = {id(st.value) for st in _stmts_walk(fn.body)
+                      if isinstance(st, (ast.Assign, ast.Expr, ast.Return, ast.AugAssign, ast.AnnAssign))
+                      and isinstance(getattr(st, 'value', None), ast.Call)}
             T().visit(fn)
             if not T.changed:
                 break
@@ -1398,6 +1450,9 @@ def _unroll_literal_loops(stmts):
         for h in getattr(s, 'handlers', None) or []:
             h.body = _unroll_literal_loops(h.body)
         if isinstance(s, ast.For) and isinstance(s.iter, (ast.Tuple, ast.List)) and not s.orelse and \
+                len(s.iter.elts) <= 12 and not any(isinstance(e, ast.Starred) for e in s.iter.elts):
+            s.body = _continue_to_guard(s.body)
+        if isinstance(s, ast.For) and isinstance(s.iter, (ast.Tuple, ast.List)) and not s.orelse and \
                 len(s.iter.elts) <= 12 and not any(isinstance(e, ast.Starred) for e in s.iter.elts) and \
                 not any(isinstance(n, (ast.Break, ast.Continue)) for n in _stmts_walk(s.body)):
             for e in s.iter.elts:
@@ -1408,6 +1463,34 @@ def _unroll_literal_loops(stmts):
             continue
         out.append(s)
     return out
+
+
+def _continue_to_guard(body):
+    """``if c: continue`` at the top level of a loop body becomes ``if not c: <rest of the body>``
+    (only when that removes every continue of the loop)"""
+    def conv(stmts):
+        for i, st in enumerate(stmts):
+            if isinstance(st, ast.If) and not st.orelse and len(st.body) == 1 and \
+                    isinstance(st.body[0], ast.Continue):
+                t = st.test
+                nt = t.operand if isinstance(t, ast.UnaryOp) and isinstance(t.op, ast.Not) else \
+                    ast.copy_location(ast.UnaryOp(op=ast.Not(), operand=t), t)
+                rest = conv(stmts[i + 1:])
+                if not rest:
+                    return stmts[:i]
+                return stmts[:i] + [ast.copy_location(ast.If(test=nt, body=rest, orelse=[]), st)]
+        return stmts
+    new = conv(list(body))
+    if any(isinstance(n, ast.Continue) for n in _stmts_walk(new)):
+        return body
+    return new or [ast.Pass()]
+
+
+def _has_literal_loop(fn):
+    return any(isinstance(n, ast.For) and isinstance(n.iter, (ast.Tuple, ast.List)) and not n.orelse
+               and len(n.iter.elts) <= 12 and
+               not any(isinstance(x, ast.Break) for x in _stmts_walk(n.body))
+               for n in _stmts_walk(fn.body))
 
 
 def _forward_substitute(fn):
@@ -1466,6 +1549,112 @@ def _forward_substitute(fn):
             i += 1
 
 
+def _propagate_unrolled(fn):
+    """block-local forward propagation of the bindings an unrolled loop leaves behind
+    (``label = 'Stdout:'; content = stdout; ...``): reads of the bound name are replaced by the
+    (pure) value until the name -- or a name the value mentions -- is bound again; bindings that are
+    never read afterwards are dropped.  Loops are not entered."""
+    def stored(node):
+        return {n.id for n in ast.walk(node) if isinstance(n, ast.Name) and
+                isinstance(n.ctx, (ast.Store, ast.Del))}
+
+    def subst(node, env):
+        if not env:
+            return
+        class T(ast.NodeTransformer):
+            def visit_Name(self, n):
+                if isinstance(n.ctx, ast.Load) and n.id in env:
+                    return ast.copy_location(copy.deepcopy(env[n.id]), n)
+                return n
+
+            def visit_FunctionDef(self, n):
+                return n
+            visit_Lambda = visit_ClassDef = visit_FunctionDef
+        for fld, val in ast.iter_fields(node):
+            if isinstance(val, ast.expr):
+                setattr(node, fld, T().visit(val))
+            elif isinstance(val, list):
+                for i, x in enumerate(val):
+                    if isinstance(x, ast.expr):
+                        val[i] = T().visit(x)
+                    elif isinstance(x, (ast.keyword, ast.withitem)):
+                        subst(x, env)
+
+    def block(stmts, env):
+        env = dict(env)
+        for st in stmts:
+            if isinstance(st, (ast.For, ast.While, ast.FunctionDef, ast.ClassDef, ast.AsyncFor)):
+                killed = stored(st)
+                for k in list(env):
+                    if k in killed or (_names_in(env[k]) & killed):
+                        del env[k]
+                continue
+            if isinstance(st, ast.If):
+                subst_expr_field(st, 'test', env)
+                block(st.body, env)
+                block(st.orelse, env)
+            elif isinstance(st, (ast.With, ast.Try)):
+                for fld in ('body', 'orelse', 'finalbody'):
+                    block(getattr(st, fld, []) or [], env)
+                for h in getattr(st, 'handlers', []) or []:
+                    block(h.body, env)
+            else:
+                if isinstance(st, ast.Assign) and getattr(st, '_unrolled', False):
+                    subst_expr_field(st, 'value', env)
+                else:
+                    subst(st, env)
+            killed = stored(st)
+            for k in list(env):
+                if k in killed or (_names_in(env[k]) & killed):
+                    del env[k]
+            if isinstance(st, ast.Assign) and getattr(st, '_unrolled', False) and \
+                    len(st.targets) == 1 and isinstance(st.targets[0], ast.Name) and _pure(st.value):
+                env[st.targets[0].id] = st.value
+
+    def subst_expr_field(node, fld, env):
+        class T(ast.NodeTransformer):
+            def visit_Name(self, n):
+                if isinstance(n.ctx, ast.Load) and n.id in env:
+                    return ast.copy_location(copy.deepcopy(env[n.id]), n)
+                return n
+        setattr(node, fld, T().visit(getattr(node, fld)))
+    block(fn.body, {})
+    # drop unrolled bindings whose name is not read before it is bound again
+    def prune(stmts):
+        i = 0
+        while i < len(stmts):
+            st = stmts[i]
+            for fld in ('body', 'orelse', 'finalbody'):
+                sub = getattr(st, fld, None)
+                if isinstance(sub, list) and sub and isinstance(sub[0], ast.stmt) and \
+                        not isinstance(st, (ast.FunctionDef, ast.ClassDef)):
+                    prune(sub)
+            for h in getattr(st, 'handlers', []) or []:
+                prune(h.body)
+            if isinstance(st, ast.Assign) and getattr(st, '_unrolled', False) and len(st.targets) == 1 \
+                    and isinstance(st.targets[0], ast.Name) and _pure(st.value):
+                x = st.targets[0].id
+                dead = True
+                for later in stmts[i + 1:]:
+                    rd = any(isinstance(n, ast.Name) and n.id == x and isinstance(n.ctx, ast.Load)
+                             for n in ast.walk(later))
+                    if rd:
+                        dead = False
+                        break
+                    if isinstance(later, ast.Assign) and any(
+                            isinstance(t, ast.Name) and t.id == x for t in later.targets):
+                        break
+                else:
+                    # end of the block: dead only if the name is not read anywhere else in the function
+                    dead = not any(isinstance(n, ast.Name) and n.id == x and isinstance(n.ctx, ast.Load)
+                                   for n in _stmts_walk(fn.body))
+                if dead:
+                    del stmts[i]
+                    continue
+            i += 1
+    prune(fn.body)
+
+
 def _mark_unrolled_split(stmts):
     """tuple assignments produced by unrolling are split and the parts stay marked"""
     out = []
@@ -1499,6 +1688,7 @@ def _simplify_function(fn, records):
     for _ in range(3):
         _forward_substitute(fn)
     fn.body = _split_tuple_assign(fn.body)
+    _propagate_unrolled(fn)
     _Fold().visit(fn)
     _fix_empty(fn)
     _scalar_replace(fn, records)
@@ -1689,10 +1879,79 @@ def _drop_self_assign(node):
 
 # ---------------------------------------------------------------------------------------------
 
+def _devirtualise(tree, log=None):
+    """``f = A if c else B`` ... ``f(args)``  ->  ``if c: A(args) else: B(args)`` (statement calls and
+    ``x = f(args)``), when *f* is assigned once, only ever called, and *c* is a pure expression.
+    Choosing between two helpers through a conditional alias is how "extract the two variants of
+    a loop" usually ends up; afterwards the ordinary inlining applies to A and B."""
+    for fn in [n for n in ast.walk(tree) if isinstance(n, (ast.FunctionDef, ast.AsyncFunctionDef))]:
+        cands = {}
+        stores = {}
+        for n in _walk_no_nested(fn):
+            if isinstance(n, ast.Name) and isinstance(n.ctx, ast.Store):
+                stores[n.id] = stores.get(n.id, 0) + 1
+            if isinstance(n, ast.Assign) and len(n.targets) == 1 and isinstance(n.targets[0], ast.Name) \
+                    and isinstance(n.value, ast.IfExp) and isinstance(n.value.body, ast.Name) and \
+                    isinstance(n.value.orelse, ast.Name) and _pure(n.value.test):
+                cands[n.targets[0].id] = n
+        for v, asg in list(cands.items()):
+            if stores.get(v) != 1:
+                continue
+            loads = [n for n in _walk_no_nested(fn) if isinstance(n, ast.Name) and n.id == v and
+                     isinstance(n.ctx, ast.Load)]
+            sites = []
+            ok = bool(loads)
+
+            def find_stmt(body):
+                for blk in _blocks(body):
+                    for i, st in enumerate(blk):
+                        call = None
+                        if isinstance(st, ast.Expr) and isinstance(st.value, ast.Call):
+                            call = st.value
+                        elif isinstance(st, (ast.Assign, ast.AugAssign)) and isinstance(st.value, ast.Call):
+                            call = st.value
+                        if call is not None and isinstance(call.func, ast.Name) and call.func.id == v:
+                            sites.append((blk, i, st, call))
+            find_stmt(fn.body)
+            used = {id(c.func) for _b, _i, _s, c in sites}
+            if not ok or any(id(n) not in used for n in loads):
+                continue
+            for blk, i, st, call in sites:
+                a, b = copy.deepcopy(st), copy.deepcopy(st)
+                for variant, target in ((a, asg.value.body), (b, asg.value.orelse)):
+                    for n in ast.walk(variant):
+                        if isinstance(n, ast.Call) and isinstance(n.func, ast.Name) and n.func.id == v:
+                            n.func = ast.copy_location(ast.Name(id=target.id, ctx=ast.Load()), n.func)
+                j = [k for k, x in enumerate(blk) if x is st][0]
+                blk[j] = ast.copy_location(ast.If(test=copy.deepcopy(asg.value.test), body=[a], orelse=[b]), st)
+            for blk in _blocks(fn.body):
+                for k, x in enumerate(list(blk)):
+                    if x is asg:
+                        blk[k] = ast.copy_location(ast.Pass(), asg)
+            if log is not None:
+                log.setdefault('devirtualised', []).append('%s: %s' % (fn.name, v))
+    return tree
+
+
+def _blocks(body):
+    """every statement list reachable from *body* without entering nested functions/classes"""
+    yield body
+    for st in body:
+        if isinstance(st, (ast.FunctionDef, ast.AsyncFunctionDef, ast.ClassDef)):
+            continue
+        for fld in ('body', 'orelse', 'finalbody'):
+            sub = getattr(st, fld, None)
+            if isinstance(sub, list) and sub and isinstance(sub[0], ast.stmt):
+                yield from _blocks(sub)
+        for h in getattr(st, 'handlers', []) or []:
+            yield from _blocks(h.body)
+
+
 def normalise(tree, modname, log=None):
     known = table().get(modname)
     if known is None or os.environ.get('VERIF_NO_NORMALISE'):
         return tree
+    tree = _devirtualise(tree, log)
     inl = Inliner(tree, modname, known)
     tree = inl.run()
     if log is not None:
